@@ -34,5 +34,6 @@ def jobs(tier):
             mk('C06', 'drain/BA', S.drain(('B', 'A')), max_paths=6000),
         ]
     out += matrix_jobs('C06', 'm1', tier)
+    out += matrix_jobs('C06', 'm2', tier)
     out += matrix_jobs('C06', 'm3', tier)
     return flat(out)
